@@ -175,7 +175,7 @@ def run(tier):
         assumptions=["exactness holds for ONE step only (states leave the exact family); beyond one step the evidence is trace level",
                      "TLC integers are 32 bit: the Euler grid is the small-number sub-grid, larger ratios are covered by the random runs",
                      "a triple whose new state is not a small rational (den <= 2000) within 64 ulp is judged on its float signs instead"],
-        mc_runs=[("MC_Positivity", "MC_Positivity.cfg", 16)],
+        mc_runs=[("MC_Positivity", "MC_Positivity.cfg", 16)] + ([("MC_Positivity", "MC_Positivity_f.cfg", 16)] if tier == "thorough" else []),
         groups=[("Judge_Positive", recs)], prefixes=["C10"], sig_of=sig_of)
 
 
